@@ -231,6 +231,7 @@ pub fn check(sc: &ConnScenario, out: &ConnOutcome, rep: &mut RunReport) {
         (None, AuthRes::Claim) => Some(Identity { name: c.name.clone(), uuid: c.uuid_u128(), props: vec![] }),
         (None, AuthRes::Profile { name, uuid, props }) => Some(Identity { name: name.clone(), uuid: u128::from_str_radix(uuid, 16).unwrap_or(0), props: props.clone() }),
         (None, AuthRes::Derived) => Some(super::swarm::derived_identity(&c.name, c.uuid_u128())),
+        (None, AuthRes::ErrorIfName { prefix }) => if c.name.starts_with(prefix.as_str()) { None } else { Some(Identity { name: c.name.clone(), uuid: c.uuid_u128(), props: vec![] }) },
         (None, AuthRes::Error) => None,
     };
     if let (Some(v), Some((n, u))) = (&vouched, login_success_identity(out))
